@@ -27,7 +27,29 @@ CLAIMED.update({
 })
 CLAIMED["C03"] = dict(text="Deductive: SInv = UInv + non-empty + duplicate-free + downward closed (quantifying over set-valued subsets) is a pre/postcondition of the complex's own mutators; removal removes exactly the simplex and its supersets; max_order bound; has_simplex answers membership. _subfaces/powerset enter through assumed contracts of itertools.combinations.",
              ref="4/C03", technique="contract-based deductive verification (pyvc + z3, set-valued quantifiers), counter-models replayed natively")
+PARTIAL = " The remaining functions of the property are covered by a bounded stand-in (native oracle, labelled bounded in the evidence, never counted as discharged)."
+CLAIMED.update({
+ "C06": dict(text="Deductive for the statistic definitions (degree / size / order, directed in/out/total degrees, head/tail sizes: VCs from the real comprehensions, z3) and syntactic liveness obligations (views alias the network's own tables, tables are never rebound, statistics are never cached)." + PARTIAL,
+             ref="4/C06", technique="contract-based deductive verification (pyvc + z3) of the statistic definitions + syntactic liveness obligations; bounded native oracle for formats/filters"),
+ "C07": dict(text="Ownership / deep-copy obligations of copy() and the pickle hooks discharged on the ASTs (fresh target, every attribute record deep-copied, counter copied, six state fields moved one-to-one); fresh sets in the adders are executor ownership obligations (C01-C03 kernels)." + PARTIAL,
+             ref="4/C07", technique="ownership / frame contracts discharged syntactically per function + bounded native equality/independence oracle"),
+ "C09": dict(text="Corollary of label-free contracts: the C09-tagged functional contracts (degree/size statistics, BFS reach sets) mention ids only through = and membership, hence are equivariant; plus sort-coercion obligations (a list of member sets is never indexed by an id)." + PARTIAL,
+             ref="4/C09", technique="contract-based deductive verification (label-free functional contracts, pyvc + z3) + typed-subscript obligations; bounded relabelling oracle"),
+ "C10": dict(text="Deductive for from_bipartite_edgelist (incidences of the result are exactly the listed pairs; loop invariant over add_node_to_edge's contract)." + PARTIAL,
+             ref="4/C10", technique="contract-based deductive verification (pyvc + z3) of the pure-Python converter kernel; bounded round-trip oracle for the other pairs"),
+ "C11": dict(text="Glue obligations of the readers/writers discharged as dataflow checks on the ASTs (serialise before opening, write exactly the serialised dict, parse exactly the file text with the caller's casts, collection paths agree); I/O libraries enter as assumed contracts." + PARTIAL,
+             ref="4/C11", technique="contract-based glue obligations (dataflow on the AST) modulo assumed contracts of json/str/numpy; bounded round trips on real files"),
+ "C14": dict(text="Deductive for _plain_bfs and node_connected_component: the returned set is the least set containing the source and closed under the neighbour relation (two loop invariants + one instance of the least-fixpoint induction principle)." + PARTIAL,
+             ref="4/C14", technique="contract-based deductive verification (pyvc + z3, loop invariants for BFS); bounded comparison with networkx for paths/clustering/graph builders"),
+ "C16": dict(text="Deductive for trivial_hypergraph (exactly the nodes 0..n-1, no edges) on top of add_nodes_from's node-set contract; the random models, decodings and simplicial generators are bounded." + PARTIAL,
+             ref="4/C16", technique="contract-based deductive verification (pyvc + z3) of the deterministic constructor kernel; exhaustive index-decoding tables and seeded generator grid as bounded stand-in"),
+ "C19": dict(text="Deductive for subhypergraph (result frozen and two-way consistent, argument unchanged, on every path) by composition of the adders' contracts; the set-theoretic definitions of the derived networks are bounded." + PARTIAL,
+             ref="4/C19", technique="contract-based deductive verification (pyvc + z3) by composition of mutator contracts; bounded native oracle for the set-theoretic definitions"),
+})
 NA_REASON = {
+ "C12": "no contract within reach: every quantity is produced by numpy/scipy operators on arrays (dot, setdiag, diag, eigen-structure, sparse formats); only index-map glue would be provable, too thin to decide the property (a bounded native oracle exists in pyvc/native_oracles.py but is not claimed)",
+ "C13": "no contract within reach without the planned Lean development (sign cancellation lemma) and an entry-level model of the numpy assignments in boundary_matrix; not built in the time available (bounded native oracle exists, not claimed)",
+ "C15": "the measures rest on a heap-allocated Trie and float division; the counting identities need Lean lemmas that were not built in the time available (bounded native oracle exists, not claimed)",
  "C20": "no contract within reach: the observables are matplotlib collections and networkx float layouts (external libraries, floating point); see DESIGN 7",
 }
 checks = []
